@@ -34,6 +34,10 @@ func main() {
 		os.Exit(2)
 	}
 	id, tier := os.Args[1], os.Args[2]
+	if tier == "--debug-publisher" {
+		debugPublisher()
+		return
+	}
 	if tier == "--debug-alphabet" {
 		debugAlphabet()
 		return
